@@ -178,3 +178,53 @@ pub fn run3(
         first_error,
     })
 }
+
+/// Randomness replay for three-party executions: Random / RandomPermutation nodes are answered
+/// from a tape keyed by (party, identity of the original node), so an original and a rewritten
+/// graph see the same draws even if some random nodes were dropped.
+pub struct TapeHook {
+    pub tape: std::collections::HashMap<(usize, (u64, u64)), Value>,
+    /// node (graph id, node id) -> identity; nodes not listed use their own id
+    pub ident: std::collections::HashMap<(u64, u64), (u64, u64)>,
+    pub use_own_id: bool,
+    pub rng: Rng,
+    pub fresh_draws: u64,
+}
+
+impl PartyHook for TapeHook {
+    fn eval(&mut self, party: usize, node: &Node, _deps: &[Value]) -> Option<CResult<Value>> {
+        let op = node.get_operation();
+        let t = match &op {
+            Operation::Random(t) => t.clone(),
+            Operation::RandomPermutation(n) => {
+                ciphercore_base::data_types::array_type(vec![*n], ciphercore_base::data_types::UINT64)
+            }
+            _ => return None,
+        };
+        let gid = node.get_global_id();
+        let id = match self.ident.get(&gid) {
+            Some(i) => *i,
+            None => {
+                if self.use_own_id {
+                    gid
+                } else {
+                    (u64::MAX, gid.1)
+                }
+            }
+        };
+        if let Some(v) = self.tape.get(&(party, id)) {
+            return Some(Ok(v.clone()));
+        }
+        self.fresh_draws += 1;
+        let v = match &op {
+            Operation::RandomPermutation(n) => {
+                let mut p: Vec<u128> = (0..*n as u128).collect();
+                self.rng.shuffle(&mut p);
+                crate::val::value_of_ints(&p, ciphercore_base::data_types::UINT64)
+            }
+            _ => rand_value(&mut self.rng, &t, Fill::Uniform),
+        };
+        self.tape.insert((party, id), v.clone());
+        Some(Ok(v))
+    }
+}
